@@ -30,18 +30,18 @@ theorem vmlog_generated (line : BitVec 64) (h : BitVec 32) (fmt a0 a1 a2 : BitVe
     (vmlog line h fmt a0 a1 a2 mem).ub = false ∧ (vmlog line h fmt a0 a1 a2 mem).exh = false ∧
     (vmlog line h fmt a0 a1 a2 mem).log_head = headNextBV h := by
   unfold vmlog headNextBV
-  bv_decide (config := { timeout := 60 })
+  bv_decide (config := { timeout := 180 })
 
 theorem vmlog_nice_generated (line : BitVec 64) (h : BitVec 32) (fmt a0 a1 a2 : BitVec 64) (mem : Mem) :
     (vmlog_nice line h fmt a0 a1 a2 mem).ub = false ∧ (vmlog_nice line h fmt a0 a1 a2 mem).exh = false ∧
     (vmlog_nice line h fmt a0 a1 a2 mem).log_head = (if h.ult 256#32 then headNextBV h else h) := by
   unfold vmlog_nice headNextBV
-  bv_decide (config := { timeout := 60 })
+  bv_decide (config := { timeout := 180 })
 
 theorem mlog_clear_generated (line : BitVec 64) (h : BitVec 32) :
     (mlog_clear line h).ub = false ∧ (mlog_clear line h).exh = false ∧ (mlog_clear line h).log_head = 0#32 := by
   unfold mlog_clear
-  first | exact ⟨rfl, rfl, rfl⟩ | bv_decide (config := { timeout := 60 })
+  first | exact ⟨rfl, rfl, rfl⟩ | bv_decide (config := { timeout := 180 })
 
 set_option maxRecDepth 8000 in
 theorem vmlog_generated_mem0 (line : BitVec 64) (h : BitVec 32) (fmt a0 a1 a2 : BitVec 64) (mem : Mem) (j : BitVec 64)
@@ -49,7 +49,7 @@ theorem vmlog_generated_mem0 (line : BitVec 64) (h : BitVec 32) (fmt a0 a1 a2 : 
     wordAt (vmlog line h fmt a0 a1 a2 mem).mem line j 0#64 = (if j = slotBV h then fmt else wordAt mem line j 0#64) := by
   unfold vmlog slotBV wordAt Mem.load64 Mem.load32 Mem.store64 Mem.store32 Mem.store16
   simp only [Mem.store_app]
-  bv_decide (config := { timeout := 60 })
+  bv_decide (config := { timeout := 180 })
 
 set_option maxRecDepth 8000 in
 theorem vmlog_nice_generated_mem0 (line : BitVec 64) (h : BitVec 32) (fmt a0 a1 a2 : BitVec 64) (mem : Mem) (j : BitVec 64)
@@ -58,7 +58,7 @@ theorem vmlog_nice_generated_mem0 (line : BitVec 64) (h : BitVec 32) (fmt a0 a1 
       (if h.ult 256#32 ∧ j = slotBV h then fmt else wordAt mem line j 0#64) := by
   unfold vmlog_nice slotBV wordAt Mem.load64 Mem.load32 Mem.store64 Mem.store32 Mem.store16
   simp only [Mem.ite_app, Mem.store_app]
-  bv_decide (config := { timeout := 60 })
+  bv_decide (config := { timeout := 180 })
 
 set_option maxRecDepth 8000 in
 theorem vmlog_generated_mem8 (line : BitVec 64) (h : BitVec 32) (fmt a0 a1 a2 : BitVec 64) (mem : Mem) (j : BitVec 64)
@@ -66,7 +66,7 @@ theorem vmlog_generated_mem8 (line : BitVec 64) (h : BitVec 32) (fmt a0 a1 a2 : 
     wordAt (vmlog line h fmt a0 a1 a2 mem).mem line j 8#64 = (if j = slotBV h then a0 else wordAt mem line j 8#64) := by
   unfold vmlog slotBV wordAt Mem.load64 Mem.load32 Mem.store64 Mem.store32 Mem.store16
   simp only [Mem.store_app]
-  bv_decide (config := { timeout := 60 })
+  bv_decide (config := { timeout := 180 })
 
 set_option maxRecDepth 8000 in
 theorem vmlog_nice_generated_mem8 (line : BitVec 64) (h : BitVec 32) (fmt a0 a1 a2 : BitVec 64) (mem : Mem) (j : BitVec 64)
@@ -75,7 +75,7 @@ theorem vmlog_nice_generated_mem8 (line : BitVec 64) (h : BitVec 32) (fmt a0 a1 
       (if h.ult 256#32 ∧ j = slotBV h then a0 else wordAt mem line j 8#64) := by
   unfold vmlog_nice slotBV wordAt Mem.load64 Mem.load32 Mem.store64 Mem.store32 Mem.store16
   simp only [Mem.ite_app, Mem.store_app]
-  bv_decide (config := { timeout := 60 })
+  bv_decide (config := { timeout := 180 })
 
 set_option maxRecDepth 8000 in
 theorem vmlog_generated_mem16 (line : BitVec 64) (h : BitVec 32) (fmt a0 a1 a2 : BitVec 64) (mem : Mem) (j : BitVec 64)
@@ -83,7 +83,7 @@ theorem vmlog_generated_mem16 (line : BitVec 64) (h : BitVec 32) (fmt a0 a1 a2 :
     wordAt (vmlog line h fmt a0 a1 a2 mem).mem line j 16#64 = (if j = slotBV h then a1 else wordAt mem line j 16#64) := by
   unfold vmlog slotBV wordAt Mem.load64 Mem.load32 Mem.store64 Mem.store32 Mem.store16
   simp only [Mem.store_app]
-  bv_decide (config := { timeout := 60 })
+  bv_decide (config := { timeout := 180 })
 
 set_option maxRecDepth 8000 in
 theorem vmlog_nice_generated_mem16 (line : BitVec 64) (h : BitVec 32) (fmt a0 a1 a2 : BitVec 64) (mem : Mem) (j : BitVec 64)
@@ -92,7 +92,7 @@ theorem vmlog_nice_generated_mem16 (line : BitVec 64) (h : BitVec 32) (fmt a0 a1
       (if h.ult 256#32 ∧ j = slotBV h then a1 else wordAt mem line j 16#64) := by
   unfold vmlog_nice slotBV wordAt Mem.load64 Mem.load32 Mem.store64 Mem.store32 Mem.store16
   simp only [Mem.ite_app, Mem.store_app]
-  bv_decide (config := { timeout := 60 })
+  bv_decide (config := { timeout := 180 })
 
 set_option maxRecDepth 8000 in
 theorem vmlog_generated_mem24 (line : BitVec 64) (h : BitVec 32) (fmt a0 a1 a2 : BitVec 64) (mem : Mem) (j : BitVec 64)
@@ -100,7 +100,7 @@ theorem vmlog_generated_mem24 (line : BitVec 64) (h : BitVec 32) (fmt a0 a1 a2 :
     wordAt (vmlog line h fmt a0 a1 a2 mem).mem line j 24#64 = (if j = slotBV h then a2 else wordAt mem line j 24#64) := by
   unfold vmlog slotBV wordAt Mem.load64 Mem.load32 Mem.store64 Mem.store32 Mem.store16
   simp only [Mem.store_app]
-  bv_decide (config := { timeout := 60 })
+  bv_decide (config := { timeout := 180 })
 
 set_option maxRecDepth 8000 in
 theorem vmlog_nice_generated_mem24 (line : BitVec 64) (h : BitVec 32) (fmt a0 a1 a2 : BitVec 64) (mem : Mem) (j : BitVec 64)
@@ -109,7 +109,7 @@ theorem vmlog_nice_generated_mem24 (line : BitVec 64) (h : BitVec 32) (fmt a0 a1
       (if h.ult 256#32 ∧ j = slotBV h then a2 else wordAt mem line j 24#64) := by
   unfold vmlog_nice slotBV wordAt Mem.load64 Mem.load32 Mem.store64 Mem.store32 Mem.store16
   simp only [Mem.ite_app, Mem.store_app]
-  bv_decide (config := { timeout := 60 })
+  bv_decide (config := { timeout := 180 })
 
 /-- nothing outside the 8192 bytes of `log.line` is written -/
 theorem vmlog_generated_frame (line : BitVec 64) (h : BitVec 32) (fmt a0 a1 a2 : BitVec 64) (mem : Mem) (a : BitVec 64)
@@ -117,14 +117,14 @@ theorem vmlog_generated_frame (line : BitVec 64) (h : BitVec 32) (fmt a0 a1 a2 :
     (vmlog line h fmt a0 a1 a2 mem).mem a = mem a := by
   unfold vmlog Mem.store64 Mem.store32 Mem.store16
   simp only [Mem.store_app]
-  bv_decide (config := { timeout := 60 })
+  bv_decide (config := { timeout := 180 })
 
 theorem vmlog_nice_generated_frame (line : BitVec 64) (h : BitVec 32) (fmt a0 a1 a2 : BitVec 64) (mem : Mem) (a : BitVec 64)
     (ha : (a - line).ult 8192#64 = false) :
     (vmlog_nice line h fmt a0 a1 a2 mem).mem a = mem a := by
   unfold vmlog_nice Mem.store64 Mem.store32 Mem.store16
   simp only [Mem.ite_app, Mem.store_app]
-  bv_decide (config := { timeout := 60 })
+  bv_decide (config := { timeout := 180 })
 
 /-- `get_line`'s index: `n += head` (wrapping, `unsigned`) once the log has wrapped, then `% 256` -/
 def lineIdxBV (h n : BitVec 32) : BitVec 64 := ((if BitVec.ule 256#32 h then n + h else n) &&& 255#32).setWidth 64
@@ -135,7 +135,7 @@ theorem get_line_generated (line : BitVec 64) (h n : BitVec 32) :
     (get_line line h n).ub = false ∧ (get_line line h n).exh = false ∧ (get_line line h n).log_head = h ∧
     (get_line line h n).ret = (if rejectBV h n then 0#64 else line + lineIdxBV h n * 32#64) := by
   unfold get_line lineIdxBV rejectBV
-  bv_decide (config := { timeout := 60 })
+  bv_decide (config := { timeout := 180 })
 
 /-- the array is placed so that no line is at address 0 and the array does not wrap around the address space -/
 def baseOkBV (line : BitVec 64) : Bool := BitVec.ult 0#64 line && BitVec.ult line 0xffffffffffffe000#64
@@ -146,7 +146,7 @@ theorem mlog_get_line_generated (line : BitVec 64) (h n : BitVec 32) (r : BitVec
     (mlog_get_line line h n r mem).ret = (if rejectBV h n then 0#64 else r) := by
   unfold baseOkBV at hb
   unfold mlog_get_line rejectBV
-  bv_decide (config := { timeout := 60 })
+  bv_decide (config := { timeout := 180 })
 
 /-- the words handed to the formatter are read from the line `get_line` selects: each argument *is* a 64-bit load (by unfolding), and
     the address loaded from is proved equal to the reference address by `bv_decide` (loads are opaque to it, addresses are not) -/
@@ -159,13 +159,13 @@ theorem mlog_get_line_generated_args (line : BitVec 64) (h n : BitVec 32) (r : B
   unfold baseOkBV at hb
   unfold rejectBV at hr
   have h0 : ∃ a, (mlog_get_line line h n r mem).strdup_printf_arg_1_0 = Mem.load64 mem a ∧ a = line + lineIdxBV h n * 32#64 + 0#64 :=
-    ⟨_, rfl, by unfold lineIdxBV; bv_decide (config := { timeout := 60 })⟩
+    ⟨_, rfl, by unfold lineIdxBV; bv_decide (config := { timeout := 180 })⟩
   have h1 : ∃ a, (mlog_get_line line h n r mem).strdup_printf_arg_1_1 = Mem.load64 mem a ∧ a = line + lineIdxBV h n * 32#64 + 8#64 :=
-    ⟨_, rfl, by unfold lineIdxBV; bv_decide (config := { timeout := 60 })⟩
+    ⟨_, rfl, by unfold lineIdxBV; bv_decide (config := { timeout := 180 })⟩
   have h2 : ∃ a, (mlog_get_line line h n r mem).strdup_printf_arg_1_2 = Mem.load64 mem a ∧ a = line + lineIdxBV h n * 32#64 + 16#64 :=
-    ⟨_, rfl, by unfold lineIdxBV; bv_decide (config := { timeout := 60 })⟩
+    ⟨_, rfl, by unfold lineIdxBV; bv_decide (config := { timeout := 180 })⟩
   have h3 : ∃ a, (mlog_get_line line h n r mem).strdup_printf_arg_1_3 = Mem.load64 mem a ∧ a = line + lineIdxBV h n * 32#64 + 24#64 :=
-    ⟨_, rfl, by unfold lineIdxBV; bv_decide (config := { timeout := 60 })⟩
+    ⟨_, rfl, by unfold lineIdxBV; bv_decide (config := { timeout := 180 })⟩
   obtain ⟨_, e0, rfl⟩ := h0
   obtain ⟨_, e1, rfl⟩ := h1
   obtain ⟨_, e2, rfl⟩ := h2
@@ -192,7 +192,7 @@ theorem dump_step_generated (R : Nat → BitVec 32) (mem : Mem) (line : BitVec 6
     (mlog_dump.loop1.step R mem line h f ub i tr it).1.exh = false := by
   unfold baseOkBV at hb
   unfold mlog_dump.loop1.step rejectBV
-  bv_decide (config := { timeout := 60 })
+  bv_decide (config := { timeout := 180 })
 
 theorem dump_step_generated_iter (R : Nat → BitVec 32) (mem : Mem) (line : BitVec 64) (h : BitVec 32) (f : BitVec 64) (ub : Bool)
     (i : BitVec 32) (tr : List ExtCall) (it : Nat) :
@@ -225,7 +225,7 @@ theorem dump_step_generated_trace_go (R : Nat → BitVec 32) (mem : Mem) (line :
   simp only [Bool.not_false, if_true, call4, BitVec.setWidth_eq, List.cons_append, List.nil_append, wordAt]
   unfold baseOkBV at hb
   unfold rejectBV at hr
-  apply call_eq <;> (unfold lineIdxBV; bv_decide (config := { timeout := 60 }))
+  apply call_eq <;> (unfold lineIdxBV; bv_decide (config := { timeout := 180 }))
 
 /-! ## layer 2: the references are the model -/
 open Librfn.Model.Mlog
